@@ -1,6 +1,7 @@
 import RsMatterVerif.Lemmas.Chunk
 import RsMatterVerif.Lemmas.ChunkAcc
 import RsMatterVerif.Lemmas.ChunkEvents
+import RsMatterVerif.Lemmas.ChunkLive
 /-!
 # C14 — a chunked answer carries the complete result exactly once
 
@@ -740,5 +741,119 @@ theorem exact_fit_fails_before_fix :
   · intro it hit; simp at hit; subst hit; decide
   · rfl
   · rfl
+
+/-! ## the event queue changes between the chunks (audit concern 3)
+
+Everything above reads ONE snapshot `r.buf` of the event queue at every fetch.  In the code every
+`events.fetch` takes the lock anew and between two fetches lies `send(ChunkingEvents).await`, during
+which other tasks push events (evicting / promoting old ones).  `Model/ChunkLive.lean` runs the same
+per-fetch step on a buffer that is a different one at every fetch (`respondLive`, `respondQ` over the
+queue model); `Lemmas/ChunkLive.lean` states what the property demands then, per fetch and relative to
+the queue AT THAT FETCH (`FetchOk`, `LiveSpec`, `LiveEvents`, `GoodLive`), and proves it:
+`respondLive_good` / `respondQ_good`, `live_no_duplicates`, `live_sound`, `live_complete_persistent`,
+`LiveSpec.complete_from`, `LiveSpec.complete_new`, `FetchOk.dichotomy`, `respondLive_never_loops`.
+Assumptions: only finitely many changes of the queue happen while one answer is sent (a Read has
+`next_max_seen = u64::MAX`, so a producer that pushes a message-full of matching events during every
+round trip keeps the answer alive: `read_kept_alive_sample`); the event number does not wrap; attribute
+VALUES re-read after a chunk was sent are not modelled as changing (sizes are fixed per `Item`). -/
+
+/-- **the frozen model is the special case of a live queue that does not change** -/
+theorem respond_eq_respondLive_nil (c : Cfg) (r : Req) : respond c r = respondLive c r [] :=
+  (respondLive_nil c r).symm
+
+/-- … and the frozen specification (`Good.events`: exactly the selected events of the snapshot, each
+once, in buffer order) is what the live specification says when the queue does not change -/
+theorem goodLive_nil_events {c : Cfg} {r : Req} {cs : List ChunkOut} (h : GoodLive c r [] cs) :
+    cs.flatMap (·.events) = eventsOf r := by
+  have hev := h.events
+  unfold eventsOf
+  cases he : r.events with
+  | none => rw [he] at hev; exact hev
+  | some e =>
+    rw [he] at hev
+    obtain ⟨tr, hs, hb, _, hevs⟩ := hev
+    have hfro : emittedAll tr = pendingAt e e.maxSeen e.buf := by
+      refine hs.frozen e.buf ?_
+      intro f hf
+      obtain ⟨i, hi, rfl⟩ := List.mem_iff_getElem.mp hf
+      rw [hb i _ (List.getElem?_eq_getElem hi), envOf_nil]
+    rw [hevs, hfro]
+    rfl
+
+/-- a queue of three buffers of 30 bytes holding three debug events of 10 bytes -/
+def liveQ : Queue := (Queue.new 30).after [.push 0 10 none, .push 0 10 none, .push 0 10 none]
+
+/-- a Read of all events (`next_max_seen = u64::MAX`) -/
+def liveReq : Req := { attrs := none, events := some { buf := [], nextMax := Queue.u64Max } }
+
+/-- while the first chunk is sent two more events are pushed: the debug buffer is full, events 1 and 2
+are evicted (debug priority: dropped) -/
+def liveSched : List (List QOp) := [[.push 0 10 none, .push 0 10 none]]
+
+/-- the hypotheses of `respondQ_good` are satisfiable -/
+example : readCfg.WF ∧ Queue.QInv liveQ ∧ ∀ q2 ∈ liveQ.states liveSched, q2.wrapped = false :=
+  ⟨readCfg_wf, Queue.after_qinv (Queue.qinv_new 30) _, by decide⟩
+
+set_option maxRecDepth 16000 in
+/-- **the live answer differs from the snapshot answer** (every report is 600 bytes: one per message):
+event 1 is sent; while that chunk is under way events 4 and 5 are pushed and evict 1 and 2; the second
+fetch (cursor 1) finds the queue `[3, 4, 5]`: event 2 was evicted before the reader reached it and is
+legitimately absent, events 4 and 5 — pushed after the answer began — are included; the snapshot
+model answers `[1], [2], [3]` -/
+example :
+    (liveQ.states liveSched).map (fun q => q.iter.map (·.num)) = [[1, 2, 3], [3, 4, 5]] ∧
+    (respondQ readCfg liveReq (fun _ => 600) (fun _ => true) liveQ liveSched).toOption.map
+        (·.map fun ch => (dataNums ch.events, ch.size, ch.more)) =
+      some [([1], 610, true), ([3], 610, true), ([4], 610, true), ([5], 610, false)] ∧
+    (respond readCfg (liveReq.onQueue (fun _ => 600) (fun _ => true) liveQ)).toOption.map
+        (·.map fun ch => (dataNums ch.events, ch.size, ch.more)) =
+      some [([1], 610, true), ([2], 610, true), ([3], 610, false)] := by
+  refine ⟨by decide, by rfl, by rfl⟩
+
+/-- … and it is `GoodLive` (instance of `respondQ_good`) -/
+example : ∃ cs, respondQ readCfg liveReq (fun _ => 600) (fun _ => true) liveQ liveSched = .ok cs ∧
+    GoodLive readCfg (liveReq.onQueue (fun _ => 600) (fun _ => true) liveQ)
+      (liveBufs (fun _ => 600) (fun _ => true) liveQ liveSched) cs := by
+  have hok : (respondQ readCfg liveReq (fun _ => 600) (fun _ => true) liveQ liveSched).toOption.isSome = true := by rfl
+  cases h : respondQ readCfg liveReq (fun _ => 600) (fun _ => true) liveQ liveSched with
+  | error e => rw [h] at hok; cases hok
+  | ok cs =>
+    exact ⟨cs, rfl, respondQ_good readCfg_wf (Queue.after_qinv (Queue.qinv_new 30) _) (by decide) h⟩
+
+/-- the hypotheses of `after_evolves` are satisfiable; here the buffer `[1, 2, 3]` evolves into `[3, 4, 5]` -/
+example : Evolves (liveQ.view (fun _ => 600) (fun _ => true))
+    ((liveQ.after [.push 0 10 none, .push 0 10 none]).view (fun _ => 600) (fun _ => true)) :=
+  after_evolves _ _ (Queue.after_qinv (Queue.qinv_new 30) _) _
+    (by intro op hop; simp only [List.mem_cons, List.not_mem_nil, or_false, or_self] at hop; exact ⟨0, 10, none, hop⟩)
+    (by decide)
+
+set_option maxRecDepth 16000 in
+/-- **why termination needs the finite-schedule assumption**: a producer that pushes one more matching
+event per round trip keeps a Read alive for as long as it goes on — here 6 scheduled changes, 8 messages
+(the answer over the snapshot has 2) -/
+theorem read_kept_alive_sample :
+    ((respondLive readCfg { attrs := none, events := some { buf := [⟨1, 600, true⟩, ⟨2, 600, true⟩], nextMax := Queue.u64Max } }
+        ((List.range 6).map fun i => [⟨i + 2, 600, true⟩, ⟨i + 3, 600, true⟩])).toOption.map (·.length)) = some 8 ∧
+    ((respond readCfg { attrs := none, events := some { buf := [⟨1, 600, true⟩, ⟨2, 600, true⟩], nextMax := Queue.u64Max } }).toOption.map
+        (·.length)) = some 2 := by
+  constructor <;> rfl
+
+/-- a subscription report: no attribute changed, one new event, longer than a message -/
+def orphanReq : Req :=
+  { attrs := some [{ item := .scalar 1 40 30, wanted := false }],
+    events := some { buf := [⟨7, 1148, true⟩], maxSeen := 6, nextMax := 7 }, sendIfEmpty := false }
+
+set_option maxRecDepth 16000 in
+/-- **observation (live queue only)**: a subscription report without changed attributes
+(`send_if_empty = false`) whose first event fits no message: the message holding the empty attribute
+array is sent with MoreChunkedMessages (over a frozen queue the next fetch then fails the interaction
+with `ResourceExhausted`); if the event is evicted meanwhile, the next fetch finds nothing, the report
+counts as empty and NO final message follows the chunk — the left disjunct of `GoodLive.lastEnds`
+with a non-empty answer.  Needs an event longer than a message, which already fails the interaction
+otherwise. -/
+theorem orphan_chunk :
+    respondLive subCfg orphanReq [[]] = .ok [{ pieces := [], events := [], size := 16, more := true }] ∧
+    respond subCfg orphanReq = .error .tooBig := by
+  constructor <;> rfl
 
 end C14
